@@ -808,6 +808,15 @@ func (f *File) UpdateSidx(addIfNotExists, nonZeroEPT bool) error {
 			return fmt.Errorf("failed to insert sidx box: %w", err)
 		}
 	}
+	if exists {
+		// Further top-level sidx boxes are written between this one and the first segment,
+		// so the references start behind them.
+		for _, sx := range f.Sidxs {
+			if sx != sidx {
+				sidx.FirstOffset += sx.Size()
+			}
+		}
+	}
 	return nil
 }
 
